@@ -14,6 +14,7 @@ import (
 	"encoding/pem"
 	"fmt"
 	"math/big"
+	"strings"
 	"sync"
 	"time"
 
@@ -132,11 +133,45 @@ func Chain(name string) []*x509.Certificate {
 	return chain
 }
 
+// OwnerChain returns the certificate chain an owner key is presented with in X5CHAIN encoding: for the owner roles a
+// two-certificate chain — the key's own certificate issued by the laboratory CA (RSA PKCS#1 v1.5 signature, fixed serial
+// number and validity, hence the same bytes in every run), followed by the CA certificate — so that "the key of an X5CHAIN
+// is the key of its first certificate" is exercised; one self-signed certificate for every other role.
+func OwnerChain(name string) []*x509.Certificate {
+	role := name[strings.LastIndex(name, "/")+1:]
+	if !strings.HasPrefix(role, "own") {
+		return Chain(name)
+	}
+	if c, ok := certs.Load("chain2:" + name); ok {
+		return c.([]*x509.Certificate)
+	}
+	ca := Chain("rsa2048/ca")[0]
+	tmpl := &x509.Certificate{
+		SerialNumber: big.NewInt(2),
+		Subject:      pkix.Name{CommonName: name},
+		NotBefore:    time.Date(2024, 1, 1, 0, 0, 0, 0, time.UTC),
+		NotAfter:     time.Date(2124, 1, 1, 0, 0, 0, 0, time.UTC),
+		KeyUsage:     x509.KeyUsageDigitalSignature,
+	}
+	tmpl.SignatureAlgorithm = x509.SHA256WithRSA
+	der, err := x509.CreateCertificate(rand.Reader, tmpl, ca, Key(name).Public(), Key("rsa2048/ca"))
+	if err != nil {
+		panic(err)
+	}
+	leaf, err := x509.ParseCertificate(der)
+	if err != nil {
+		panic(err)
+	}
+	chain := []*x509.Certificate{leaf, ca}
+	certs.Store("chain2:"+name, chain)
+	return chain
+}
+
 // PublicKey encodes the public half of a pool key as an FDO public key.
 func PublicKey(k Kind, name string, enc protocol.KeyEncoding) (*protocol.PublicKey, error) {
 	switch enc {
 	case protocol.X5ChainKeyEnc:
-		return protocol.NewPublicKey(k.Type, Chain(name), false)
+		return protocol.NewPublicKey(k.Type, OwnerChain(name), false)
 	case protocol.X509KeyEnc, protocol.CoseKeyEnc:
 		switch pub := Key(name).Public().(type) {
 		case *ecdsa.PublicKey:
